@@ -75,7 +75,10 @@ C04StepChecks(k, e, s, t, gb) ==
          ds == AllDenoms(s) \cup AllDenoms(t)
          Out(a, d) == SumOver({i \in DOMAIN E : E[i].recipient = a /\ E[i].out_denom = d}, LAMBDA i : E[i].out_amt)
          In(a, d)  == SumOver({i \in DOMAIN E : E[i].sender = a /\ E[i].in_denom = d}, LAMBDA i : E[i].in_amt)
-         Bonus(a, d) == DBal(s, t, a, d) -- (Out(a, d) -- In(a, d))
+         \* (the staking end blocker pays matured unbondings back to their delegator in the same step: not on a request's behalf)
+         Unbonded(a, d) == SumOver({i \in DOMAIN e.abci : e.abci[i].type = "complete_unbonding" /\ e.abci[i].delegator = a /\ e.abci[i].denom = d},
+                                   LAMBDA i : e.abci[i].amt)
+         Bonus(a, d) == (DBal(s, t, a, d) -- Unbonded(a, d)) -- (Out(a, d) -- In(a, d))
          OracleRcpt(a, d) == \E i \in DOMAIN E : E[i].recipient = a /\ E[i].out_denom = d
                                                   /\ E[i].pool_id \in Pools(s) /\ s.amm.pools[E[i].pool_id].useOracle
          badBal == {<<a, d>> \in UserAccts(s) \X ds : Bonus(a, d) \prec Zero \/ (Bonus(a, d) \succ Zero /\ ~OracleRcpt(a, d))}
